@@ -149,12 +149,24 @@ int cif_packet_create_norm(cif_packet_tp **packet, UChar **names, int avoid_alia
             if (scalar == NULL) {
                 FAIL(soft, CIF_MEMORY_ERROR);
             } else {
+                struct entry_s *existing = NULL;
+
+                /* a packet is a map: two names for the same item cannot both be represented */
+                HASH_FIND(hh, temp_packet->map.head, *name, U_BYTES(*name), existing);
+                if (existing != NULL) {
+                    free(scalar);
+                    FAIL(soft, CIF_DUP_ITEMNAME);
+                }
+
                 scalar->as_value.kind = CIF_UNK_KIND;
                 if (avoid_aliasing == 0) {
                     scalar->key = *name;
                 } else {
                     scalar->key = cif_u_strdup(*name);
-                    if (scalar->key == NULL) FAIL(soft, CIF_MEMORY_ERROR);
+                    if (scalar->key == NULL) {
+                        free(scalar);
+                        FAIL(soft, CIF_MEMORY_ERROR);
+                    }
                 }
                 scalar->key_orig = scalar->key;
                 HASH_ADD_KEYPTR(hh, temp_packet->map.head, scalar->key, U_BYTES(scalar->key), scalar);
